@@ -11,7 +11,7 @@ import build as bld
 
 PID = 'C20'
 LEVEL = 'exploration'
-RULE = ('generated programs of ~60 statements each: random expression trees (depth <= 4) over mpz_class / mpq_class / mpf_class variables, sub-'
+RULE = ('[also: mixed-class trees (mpz operands inside mpq trees, mpz/mpq inside mpf trees, promoted by the templates; the C evaluation converts with mpq_set_z/mpf_set_z/mpf_set_q at that node)] generated programs of ~60 statements each: random expression trees (depth <= 4) over mpz_class / mpq_class / mpf_class variables, sub-'
         'expressions and int/unsigned/long/unsigned long/double literals on either side (every operator node has a class-typed operand; only integer-'
         'valued doubles next to mpz_class), operators + - * / % & | ^ ~ << >> unary -, abs, sqrt, assignment targets that occur inside the tree and '
         'compound assignments; each statement is evaluated (1) by the expression templates and (2) step by step with the C functions (/ = tdiv_q, % = '
